@@ -470,24 +470,24 @@ Example C07_tap_invents_nonvacuous :
   ex_commit (encode ex_ke_tap ex_m) ex_cb = true /\ not_annex ex_cb.
 Proof. exact ex_tap_hyps. Qed.
 
-(* ---- why the P2SH theorems are `_partial`: the 1650-byte scriptSig rule is NOT implied by the Legacy
-   verdict.  sh(thresh(13, c:pk_h(K0), ac:pk_h(K1), .., ac:pk_h(K12))), compressed keys, 72-byte
-   signatures, all available: well-typed B, within_resource_limits = true (363-byte redeem script, 91
-   opcodes, max_script_sig_size 1404), the lift succeeds, the policy is true, the satisfier model returns
-   a satisfaction, witness_to_scriptsig (items ++ [redeem script]) returns - and the scriptSig is longer
-   than 1650 bytes, so verify_sh rejects it in EVERY environment and for every script hash.
-   (Legacy::check_local_policy_validity bounds max_script_sig_size, which counts the items, not the push
-   of the redeem script appended by Sh::get_satisfaction.)  Model-level fact, by evaluation. ---- *)
-Example C07_sh_scriptsig_rule_not_implied :
+(* ---- the 1650-byte scriptSig rule and the Legacy verdict.  sh(thresh(13, c:pk_h(K0), ac:pk_h(K1), ..,
+   ac:pk_h(K12))), compressed keys, 72-byte signatures, all available: well-typed B, 363-byte redeem script,
+   91 opcodes, max_script_sig_size 1404; the satisfier model returns a satisfaction whose scriptSig
+   (items ++ [redeem script]) is longer than 1650 bytes, so verify_sh rejects it in EVERY environment.
+   Until /repo e37a8a3d the verdict was TRUE for it (the library compared only the items with the limit):
+   found here as a model-level fact, reproduced on the real library by C01's sat engine, repaired; the
+   model mirrors the repaired test and the verdict is now FALSE.  The P2SH theorems above still carry the
+   scriptSig rule as a hypothesis (`_partial`); deriving it from the repaired verdict is open. ---- *)
+Example C07_sh_scriptsig_rule_now_refused :
   (exists t, type_of sx_m = ROk t /\ c_base (t_corr t) = BB) /\
-  within_resource_limits Legacy (CodecExt.is_uncompressed sx_ke) sx_m = true /\
-  lift_ctx Legacy (CodecExt.is_uncompressed sx_ke) sx_m = LOk sx_p /\ leval sx_A sx_p = true /\
+  within_resource_limits Legacy (CodecExt.is_uncompressed sx_ke) sx_m = false /\
+  lift_ctx Legacy (CodecExt.is_uncompressed sx_ke) sx_m <> LOk sx_p /\ leval sx_A sx_p = true /\
   blen (encode sx_ke sx_m) <= 520 /\
   exists bs ss, satisfy sx_ke sx_se sx_f true true sx_m = Some bs /\
                 witness_to_scriptsig (bs ++ [encode sx_ke sx_m]) = Some ss /\
                 1650 < blen (serialize ss) /\
                 forall e h, verify_sh e h (serialize ss) [] = false.
-Proof. exact sx_scriptsig_rule_not_implied. Qed.
+Proof. exact sx_scriptsig_rule_now_refused. Qed.
 
 (* non-vacuity of the P2TR leaf equivalence: 32-byte keys, the same script, nSequence 12, a commitment
    oracle accepting exactly (this leaf, this control block); both truth values; the validation by
